@@ -10,6 +10,7 @@ import (
 	"github.com/cbeuw/Cloak/internal/common"
 	"github.com/cbeuw/Cloak/internal/vnet"
 	"github.com/cbeuw/Cloak/internal/vrt"
+	"github.com/cbeuw/Cloak/internal/vrt/sync"
 	"github.com/cbeuw/Cloak/internal/vx"
 )
 
@@ -90,3 +91,84 @@ func init() {
 		return rep
 	}})
 }
+
+// C05 driver: a record larger than the reader's buffer. Between two valid records the connection
+// carries one record announcing `n` > 20480 bytes (an explorer choice), whose body contains, at a
+// chosen offset, the complete bytes of a valid frame for another stream - what a peer with a larger
+// message limit, or a hostile one, could send. "Reported as an error, never delivered truncated":
+// nothing that was not itself sent as a record ever reaches a stream - the embedded frame's stream is
+// never opened, and stream 1 carries only the payloads of the two whole records (or of the first, if
+// the session gave up on the connection).
+func init() {
+	vx.Register(&vx.Scenario{Name: "mux.oversizerecord", Prop: "C05", Run: func(c *vx.Ctx) *vx.Report {
+		o, _ := MakeObfuscator(methodOf(c.P("method", "aes-256-gcm")), rigKey)
+		rec := func(b []byte) []byte {
+			return append([]byte{0x17, 0x03, 0x03, byte(len(b) >> 8), byte(len(b))}, b...)
+		}
+		p1, p2 := []byte("first whole record"), []byte("second whole record")
+		f1 := rec(c11Encode(&o, 1, 0, 0, p1, 0))
+		f2 := rec(c11Encode(&o, 1, 1, 0, p2, 0))
+		inner := c11Encode(&o, 9, 0, 0, []byte("never sent as a record of its own"), 0)
+		sizes := []int{20481, 20485, 20480 + len(inner), 24000, 40000, 65535}
+		sc := &vrt.Scenario{
+			Opt:      vrt.Options{Delay: true},
+			Classify: deadlockIs("blocked-calls-return"),
+			Main: func() {
+				n := sizes[vrt.Choose(len(sizes), "announced-length")]
+				// where the embedded frame starts: right where a reader that swallowed one buffer-full (or
+				// only the header) of the oversize body would look for the next record
+				offs := []int{0, 20480 - 5, 20480, n - len(inner) - 5}
+				off := offs[vrt.Choose(len(offs), "embedded-at")]
+				body := make([]byte, n)
+				for i := range body {
+					body[i] = byte(i*31 + 7)
+				}
+				if off >= 0 && off+5+len(inner) <= n {
+					copy(body[off:], rec(inner))
+				}
+				net := vnet.New()
+				a, b := net.Pair("rec", false)
+				sesh := MakeSession(7, SessionConfig{Obfuscator: o, Valve: UNLIMITED_VALVE, MsgOnWireSizeLimit: prodLimit})
+				sesh.AddConnection(common.NewTLSConn(b))
+				got := map[uint32][]byte{}
+				var wg sync.WaitGroup
+				wg.Add(1)
+				vrt.Go("app", func() { // accepts streams as they appear (after the session has closed Accept refuses: F15)
+					defer wg.Done()
+					for {
+						conn, err := sesh.Accept()
+						if err != nil {
+							return
+						}
+						wg.Add(1)
+						vrt.Go("reader", func() {
+							defer wg.Done()
+							d, _ := io.ReadAll(conn)
+							got[conn.(*Stream).id] = d
+						})
+					}
+				})
+				a.Write(f1)
+				quiesce()
+				a.Write(rec(body))
+				a.Write(f2)
+				quiesce()
+				a.Close()
+				quiesce()
+				sesh.Close()
+				wg.Wait()
+				for id, d := range got {
+					if id != 1 {
+						vrt.Fail("oversize-is-an-error", "a record announcing %d bytes (reader's buffer: 20480) with a frame embedded at offset %d of its body: stream %d was opened and delivered %q, which was never sent as a record", n, off, id, trunc(d))
+					}
+				}
+				if d := got[1]; !bytes.Equal(d, p1) && !bytes.Equal(d, append(append([]byte{}, p1...), p2...)) {
+					vrt.Fail("oversize-is-an-error", "a record announcing %d bytes between two whole records: stream 1 delivered %q", n, trunc(d))
+				}
+				vrt.Observe("closed=%v", sesh.IsClosed())
+			},
+		}
+		return vx.RunSched(c, sc, sigOf("C05"))
+	}})
+}
+
